@@ -35,11 +35,12 @@ Theorem C05_data_gate : forall s system w wf,
 Proof. exact data_gate. Qed.
 Print Assumptions C05_data_gate.
 
-(* data while SELECTED: delivered — to the requester waiting for these system bytes if the message can be a reply (no W-bit),
-   else to the application; a primary of the peer (W-bit) always reaches the application, whatever its system bytes (D49) *)
+(* data while SELECTED: delivered — to the requester of the open DATA transaction with these system bytes if the message can be a reply
+   (no W-bit), else to the application; a primary of the peer (W-bit) always reaches the application, whatever its system bytes (D49),
+   and so does a secondary that carries the system bytes of an open Select / Deselect / Linktest request (D77) *)
 Theorem C05_data_delivered : forall s system w,
   reachable s -> abs_state s = Selected ->
-  snd (hs_step s (EvData system w true)) = [if queued s system && negb w then OutResolve system else OutDeliver system] /\
+  snd (hs_step s (EvData system w true)) = [if queued_as s system ST_DATA && negb w then OutResolve system else OutDeliver system] /\
   abs_state (fst (hs_step s (EvData system w true))) = Selected.
 Proof. exact data_delivered. Qed.
 Print Assumptions C05_data_delivered.
